@@ -125,10 +125,29 @@ def theorem_names(prop: str):
     return re.findall(rf'^theorem\s+({prop}_\w+)', f.read_text(), flags=re.M)
 
 
-def grep_forbidden():
-    """Forbidden constructs in any Lean source of the project (comments stripped)."""
+def import_closure(roots):
+    """Lean source files of this project reachable through `import Ampy...` from the given modules."""
+    seen, todo = {}, list(roots)
+    while todo:
+        m = todo.pop()
+        if m in seen:
+            continue
+        f = LEAN / (m.replace('.', '/') + '.lean')
+        if not f.exists():
+            continue
+        seen[m] = f
+        for imp in re.findall(r'^import\s+(Ampy[\w.]*|Main)\s*$', f.read_text(), flags=re.M):
+            todo.append(imp)
+    return list(seen.values())
+
+
+def grep_forbidden(prop=None):
+    """Forbidden constructs in the Lean sources the property's theorems and the driver are built from
+    (comments stripped)."""
+    roots = ['Main'] + ([f'Ampy.Props.{prop}'] if prop else [])
+    files = import_closure(roots) if prop else list((LEAN / 'Ampy').rglob('*.lean')) + [LEAN / 'Main.lean']
     hits = []
-    for f in list((LEAN / 'Ampy').rglob('*.lean')) + [LEAN / 'Main.lean', LEAN / 'Ampy.lean']:
+    for f in files:
         txt = f.read_text()
         txt = re.sub(r'/-.*?-/', lambda m: '\n' * m.group(0).count('\n'), txt, flags=re.S)
         for i, line in enumerate(txt.split('\n'), 1):
@@ -267,7 +286,7 @@ class Check:
             self.discharged = sum(1 for n in names if n in self.axioms
                                   and all(a in ALLOWED_AXIOMS for a in self.axioms[n]))
             self.proof_problems += bad
-        forb = grep_forbidden()
+        forb = grep_forbidden(self.prop)
         if forb:
             self.proof_problems.append('forbidden constructs: ' + '; '.join(forb[:5]))
             self.discharged = 0
